@@ -399,6 +399,22 @@ func dumpStore(ctx sdk.Context, key storetypes.StoreKey) map[string][]byte {
 }
 
 // withCache runs f on a branch of ctx and writes it back only if f returns nil (baseapp's message cache).
+// Enact applies a proposal content the way the gov EndBlocker does at enactment: through the application's proposal
+// router. It is the ROUTER that makes a failing content leave no trace (it runs the handler on a cache context of its
+// own), so whatever it leaves behind is written here - error or not. A panic is the death of the node before the block is
+// committed: nothing is written.
+func (w *World) Enact(ctx sdk.Context, id uint64, content govtypes.Content) (err error) {
+	cctx, write := ctx.CacheContext()
+	defer func() {
+		if r := recover(); r != nil {
+			err = fmt.Errorf("panic: %v", r)
+		}
+	}()
+	err = w.app.CustomGovKeeper.GetProposalRouter().ApplyProposal(cctx, id, content, sdk.ZeroDec())
+	write()
+	return err
+}
+
 func withCache(ctx sdk.Context, f func(ctx sdk.Context) error) (err error) {
 	cctx, write := ctx.CacheContext()
 	defer func() {
